@@ -18,7 +18,8 @@ RULE = ("(a) every TZif file under /usr/share/zoneinfo (quick: a seeded sample o
         "TZif reader (adjacent equal types merged): local == t + offset(last transition <= t); "
         "zone->UTC is the unique pre-image, or one of the pre-images when ambiguous. Queries are "
         "asserted one per process (history independence is C13). Non-trivial: queries within 1 s "
-        "of a transition, after the last one, or with transition index >= 255")
+        "of a transition, after the last one, or with transition index >= 255"
+        " Also: %Z printed with the converted time is the offset in force (also behind --from-zone of a zone west of Greenwich), and the printed text read back (default reader and -i %FT%T%Z) is the instant again.")
 ASSUMPTIONS = ["instants before the first listed transition are outside the statement",
                "the POSIX footer is ignored (statement: last listed offset stays in force)",
                "offsets are compared through the converted civil time"]
